@@ -653,6 +653,7 @@ func run(c *core.Ctx) {
 	partB(c)
 	partD(c)
 	partF(c)
+	partClock(c)
 	idsAcrossProcesses(c)
 	evals := c.Count("evaluations")
 	c.Set("evaluations", evals)
@@ -696,6 +697,10 @@ func replay(c *core.Ctx, raw json.RawMessage) {
 	}
 	json.Unmarshal(raw, &probe)
 	switch probe.Part {
+	case "clock":
+		var cc clockCase
+		json.Unmarshal(raw, &cc)
+		runClock(c, cc)
 	case "a":
 		var cc codecCase
 		json.Unmarshal(raw, &cc)
